@@ -43,7 +43,7 @@ TIE = {
  "C17": "40 assignments re-emitted from `cgauleg_pywrap.c`/`integrate/util.py` (`gen_X = F.X` by reflexivity), control skeleton compared + bit-exact correspondence + moment certificates",
  "C18": "Gen.v regenerated (34 definitions: formulas, comparison operators, defaults, clamps), tie theorems + correspondence on exact rationals",
  "C19": "formula chains of randsphere/randcap/rotate/interplin regenerated and proved equal to the model, other statements pinned by text + interval certificates + exact-rational verdicts",
- "C20": "correspondence only (hand models; exhaustive isplit rectangle in thorough); T-int prototype for isplit",
+ "C20": "Gen.v regenerated (isplit, splitarray, sort loop skeletons, format_interval, meter total, bar skeletons), Tie.v: Gen = model + correspondence over 10 entry points",
 }
 for pr in props:
     p = pr["id"]
